@@ -46,3 +46,17 @@ func ZZ_C19_histogram_Encode_validates_measurement() {
 	}
 	zzAssert(zzAnd(ok...), "one-hot at the measurement's index")
 }
+
+// C19: every element of the encoded measurement is covered by a gadget call of the range check:
+// NumGadgetCalls = ceil(length / chunkLen).  Bound: length, chunkLen < 256 (chunkLen > 0 is checked
+// by New).
+//
+//zz: prop=C19 tier=quick backend=bv timeout=300
+func ZZ_C19_histogram_gadget_calls_cover_the_measurement() {
+	length, chunk := uint(zzU8("length")), uint(zzU8("chunkLen"))
+	zzAssumeNote(chunk > 0 && length > 0, "New refuses a zero length or chunk length")
+	h := newFlpHistogram(length, chunk)
+	calls := h.NumGadgetCalls
+	zzAssert(calls >= 1 && calls*chunk >= h.Valid.MeasurementLen && (calls-1)*chunk < h.Valid.MeasurementLen, "gadget calls = ceil(length / chunkLen)")
+	zzAssert(h.Valid.JointRandLen == calls && h.Valid.MeasurementLen == length, "lengths")
+}
